@@ -21,6 +21,7 @@ func Main(args []string) int {
 	noEv := fs.Bool("no-evidence", false, "do not write evidence files")
 	goarch := fs.String("goarch", "", "analyse the build configuration of this GOARCH (default: host)")
 	replay := fs.String("replay", "", "re-evaluate the obligation recorded in this violation file against the current tree")
+	battery := fs.String("battery", "", "dev: run the overlay mutants of this property (all, or those whose id contains the value) and print caught/missed")
 	if err := fs.Parse(args); err != nil {
 		return 2
 	}
@@ -124,6 +125,33 @@ func Main(args []string) int {
 	if *goarch != "" {
 		hostCfg = "linux/" + *goarch
 	}
+	if *battery != "" {
+		only := *battery
+		if only == "all" {
+			only = ""
+		}
+		bad := 0
+		for _, r := range runMutants(*prop, *repo, only, run) {
+			verdict := "CAUGHT"
+			switch {
+			case !r.Applied || !r.Loads:
+				verdict = "SKIPPED"
+			case r.Benign && r.Reported:
+				verdict = "FALSE-ALARM"
+				bad++
+			case r.Benign:
+				verdict = "silent(ok)"
+			case !r.Reported:
+				verdict = "MISSED"
+				bad++
+			}
+			fmt.Printf("%-12s %-40s %s %s\n", verdict, r.ID, strings.Join(r.Rules, ","), r.Note)
+		}
+		if bad > 0 {
+			return 1
+		}
+		return 0
+	}
 	c := run(p, hostCfg)
 	if *replay != "" {
 		return replayObligation(c, *replay)
@@ -142,6 +170,17 @@ func Main(args []string) int {
 		p2 = nil
 		sens := sensitivity(*prop, *repo, run)
 		c.Extra["sensitivity"] = sens
+		muts := runMutants(*prop, *repo, "", run)
+		c.Extra["mutants"] = muts
+		for _, mr := range muts {
+			if mr.Applied && mr.Loads && mr.Benign == mr.Reported {
+				kind := "breaking edit not reported"
+				if mr.Benign {
+					kind = "behaviour-preserving edit reported"
+				}
+				fmt.Printf("NOTE: checker self-test: %s: %s\n", mr.ID, kind)
+			}
+		}
 		for _, sr := range sens {
 			if sr.Applied && !sr.Detected {
 				fmt.Printf("NOTE: sensitivity: seeded change %s applies to the current tree and is not reported by %s\n", sr.ID, *prop)
